@@ -81,6 +81,45 @@ structure Decls where
   unlock : List SrcAccess
 deriving Inhabited
 
+/-! The declaration table the translator emits for all four classes. -/
+
+inductive Cls where
+  | spinlock | recursiveSpinlock | identifiable | defaultSettable
+deriving DecidableEq, Repr, Inhabited
+
+inductive Member where
+  | ready | owner | count                 -- ready_, locked_thread_id_, lock_count_
+  | nextId | objects | mutex | objId      -- Identifiable: next_id_, objects_, mutex_, id_
+  | defaultObj                            -- DefaultSettable: default_obj_
+deriving DecidableEq, Repr, Inhabited
+
+inductive IdentMethod where
+  | ctor | dtor | getObject
+deriving DecidableEq, Repr, Inhabited
+
+structure MemberDecl where
+  cls : Cls
+  member : Member
+  type : String          -- the declared type, as written
+  isStatic : Bool
+  isThreadLocal : Bool
+  isAtomic : Bool
+  bits : Nat             -- width when the type is a fixed-width unsigned integer, else 0
+deriving Repr, Inhabited
+
+def findMember (l : List MemberDecl) (c : Cls) (m : Member) : Option MemberDecl :=
+  l.find? (fun d => d.cls = c ∧ d.member = m)
+
+/-- width of an integer member (0: not declared, or not a fixed-width unsigned integer) -/
+def bitsOf (l : List MemberDecl) (c : Cls) (m : Member) : Nat :=
+  match findMember l c m with
+  | some d => d.bits
+  | none => 0
+
+/-- (static?, thread_local?) of a member -/
+def storageOf (l : List MemberDecl) (c : Cls) (m : Member) : Option (Bool × Bool) :=
+  (findMember l c m).map (fun d => (d.isStatic, d.isThreadLocal))
+
 /-- Two accesses by different threads form a data race when they touch the same
 non-atomic field and at least one of them writes. -/
 def Conflict (d : Decls) (a b : Option Access) : Prop :=
